@@ -44,7 +44,7 @@ REQUIRED = ["target_r_stb_exactly_once", "target_w_stb_exactly_once", "read_data
 
 
 def n_cases(tier):
-    return 64 if tier == "quick" else 800
+    return 128 if tier == "quick" else 1600
 
 
 def gen_case(rng, tier, idx):
